@@ -6,3 +6,5 @@ import Dasp.Props.C13
 import Dasp.Props.C09
 import Dasp.Props.C14
 import Dasp.Props.C20
+import Dasp.Props.C04
+import Dasp.Props.C05
